@@ -15,6 +15,13 @@
      6. IB_richcompare vs InterfaceBase.__eq__/__ne__/__lt__... when the other operand carries a
         __name__ / __module__ that is not a string
 
+   The C text is the one of /repo after the fix commits 6e508eb..a57249b (found by this property:
+   unset _implied / unhashable operands in SB_extends, foreign declarations asked by calling them,
+   providedBy swallowing every exception, ClassProvidesBase / hash error reporting); the models
+   transcribe that text.  Two differences between the texts remain and are stated as refutations:
+   comparison with a foreign object whose __name__ is not a string (known finding G8) and a latent
+   one in providedBy (isinstance raising AttributeError).
+
    Everything the kernels read from the outside (attribute reads, isinstance answers, what a foreign
    object answers when called) is part of the *description* of the input, so the theorems hold
    for every behaviour of the environment.  Objects are numbered by identity ([nat]). *)
